@@ -70,6 +70,11 @@ func c19Expressions(thorough bool) []c19Expr {
 				// a binding must not leak out of its let into the enclosing scope
 				add("let $x = "+b1+" in [let $y = "+b2+" in "+body+", $y]", "leak-list/"+t)
 				add("let $x = "+b1+" in {p: let $y = "+b2+" in "+body+", q: $y}", "leak-hash/"+t)
+				// a binding the body never mentions is evaluated all the same: its faults are reported
+				add("let $x = "+b1+", $u = $nope in "+body, "unused-faulty-binding/"+t)
+				add("let $x = "+b1+" in let $u = $y in "+body, "unused-faulty-binding-nested/"+t)
+				add("let $x = "+b1+", $u = abs('s') in "+body, "unused-faulty-binding-type/"+t)
+				add("let $x = "+b1+" in let $y = $x, $u = $y in "+body, "unused-sibling-reference/"+t)
 				// a let inside a binding expression that rebinds an outer name in terms of its outer value
 				add("let $x = "+b1+" in let $y = (let $x = [$x, "+b2+"] in $x) in "+body, "rebind-in-binding/"+t)
 				add("let $x = "+b1+" in let $x = "+b2+" in let $y = (let $x = [$x] in $x) in "+body, "rebind-in-binding-shadowed/"+t)
